@@ -101,8 +101,26 @@ def replays(by_prop, argv):
         reproduced = p.returncode == 1
         want = e['status'] == 'known'
         ok = reproduced == want
-        print('%s %s %s: %s' % ('OK  ' if ok else 'FAIL', e['property'], e['status'],
-                                'reproduces' if reproduced else 'does not reproduce'))
+        note = ''
+        if e['status'] == 'fixed' and e.get('commit'):
+            # the replay must still reproduce on the tree just before its fix (scratch worktree, /repo untouched)
+            import tempfile
+            wt = tempfile.mkdtemp(prefix='verif-prefix-')
+            os.rmdir(wt)
+            r = subprocess.run(['git', '-C', '/repo', 'worktree', 'add', '-q', '--detach', wt, e['commit'] + '^'],
+                               stdout=subprocess.PIPE, stderr=subprocess.STDOUT, universal_newlines=True)
+            if r.returncode == 0:
+                env = dict(os.environ, VERIF_REPO=wt)
+                q = subprocess.run([sys.executable, VCHECK, 'replay', path], stdout=subprocess.PIPE,
+                                   stderr=subprocess.STDOUT, universal_newlines=True, env=env)
+                subprocess.run(['git', '-C', '/repo', 'worktree', 'remove', '--force', wt], stdout=subprocess.PIPE,
+                               stderr=subprocess.STDOUT)
+                subprocess.run(['git', '-C', '/repo', 'worktree', 'prune'])
+                before = q.returncode == 1
+                note = '; on %s^ it %s' % (e['commit'], 'reproduces' if before else 'DOES NOT reproduce')
+                ok = ok and before
+        print('%s %s %s: %s%s' % ('OK  ' if ok else 'FAIL', e['property'], e['status'],
+                                  'reproduces' if reproduced else 'does not reproduce', note))
         bad += not ok
     return 1 if bad else 0
 
